@@ -85,5 +85,15 @@ var spellings = []struct {
 	{"underscore-led", func(n string) string { return "_u_" + n }}, // (not "_"+n: _i, _c, _len are names of the back-ends, C10's listed finding)
 	{"capitalised", func(n string) string { return string(n[0]&^0x20) + n[1:] + "Q" }},
 	{"underscore-tail", func(n string) string { return n + "_" }},
-	{"digit-tail", func(n string) string { return n + "_7" }},
+	{"digit-tail", func(n string) string { return n + "_79" }},
+	// a reserved word glued in front: the identifier is maximal, so it stays an identifier (each name gets one of
+	// the words, chosen by its spelling, so a program with several names covers several words)
+	{"keyword-led", func(n string) string {
+		words := []string{"true", "false", "for", "if", "len", "print", "int", "nil", "var", "func", "return", "range", "case", "else", "copy", "read", "bool", "string", "switch", "break", "continue", "default", "import", "itoa", "exists", "write", "panic", "input", "error"}
+		h := 0
+		for i := 0; i < len(n); i++ {
+			h = h*31 + int(n[i])
+		}
+		return words[h%len(words)] + string(n[0]&^0x20) + n[1:]
+	}},
 }
